@@ -31,7 +31,9 @@ Perm(alts) == [t |-> "perm", alts |-> alts]         \* produced by a loop over a
 Opq(kind)  == [t |-> "opq", kind |-> kind]
 NilPointerKinds == {"nilptr_struct", "nilptr_int"}
 OpaqueKinds == NilPointerKinds \cup {"ptr_struct", "ptr_int", "struct", "nil_slice", "empty_slice", "nil_map", "empty_map",
-                                     "int8_zero", "uint_zero", "float32_zero", "int64_one", "time", "func", "empty_array", "slice_str"}
+                                     "int8_zero", "uint_zero", "float32_zero", "int64_one", "time", "func", "empty_array", "slice_str",
+                                     \* non-nil pointers to falsy values: the POINTER is tested, and it is not nil
+                                     "ptr_false", "ptr_empty_string", "ptr_empty_html"}
 
 \* opaque kinds a for loop visits zero times (empty or nil collections)
 EmptyIterKinds == {"nil_slice", "empty_slice", "nil_map", "empty_map", "empty_array"}
@@ -147,6 +149,7 @@ Flat(ss) == IF ss = <<>> THEN <<>> ELSE Head(ss) \o Flat(Tail(ss))
 JsEscapeChars(s) == Flat([i \in 1..Len(s) |-> JsEscChar(s[i])])
 \* the extension of a file name given as characters: "" | ".js" | ".html" ...
 RECURSIVE LastDot(_, _)
-LastDot(s, i) == IF i = 0 THEN 0 ELSE IF s[i] = "." THEN i ELSE LastDot(s, i - 1)
+\* (of the last path element only: a dot in a directory name is not an extension)
+LastDot(s, i) == IF i = 0 \/ s[i] = "/" THEN 0 ELSE IF s[i] = "." THEN i ELSE LastDot(s, i - 1)
 ExtOf(s) == LET d == LastDot(s, Len(s)) IN IF d = 0 THEN <<>> ELSE SubSeq(s, d, Len(s))
 =============================================================================
